@@ -37,20 +37,20 @@ Proof. vm_compute. reflexivity. Qed.
     threshold otherwise; a rejection names the rule and carries k + 1; builds without an
     extractable value are admitted. *)
 Theorem C05_hotspot_exact : forall r base ops,
-  h_kind r = HConc -> thresholds_pos r = true ->
+  h_kind r = HConc ->
   ok_c05h r [] ops (hrun (mkHW base [hctl0 r] []) ops) = true.
 Proof. exact c05h_holds_init. Qed.
 
 (** ... so the entries open at the same time with value v never exceed T_v. *)
 Theorem C05_hotspot_cap : forall r base ops v,
-  h_kind r = HConc -> thresholds_pos r = true ->
+  h_kind r = HConc ->
   count_open r v (open_after [] ops (hrun (mkHW base [hctl0 r] []) ops)) <= thr_of r v.
 Proof. exact c05h_cap. Qed.
 
 (** Several concurrency rules on one resource (checked in order, the first that is full blocks;
     an entry rejected by a later rule takes no place in an earlier one): the same statement. *)
 Theorem C05_hotspot_exact_multi : forall rs base ops,
-  Forall (fun r => h_kind r = HConc /\ thresholds_pos r = true) rs ->
+  Forall (fun r => h_kind r = HConc) rs ->
   ok_c05h_multi rs [] ops (hrun (mkHW base (map hctl0 rs) []) ops) = true.
 Proof. exact c05h_multi_holds. Qed.
 
